@@ -39,7 +39,7 @@ SOFTWARE.
 __version__ = '0.3'  # Dated 2024-5-13
 
 import logging
-from packaging.version import parse
+from packaging.version import parse, InvalidVersion
 
 from .plot_utils_import import from_dependency_import
 inkex = from_dependency_import('ink_extensions.inkex')
@@ -438,8 +438,11 @@ def min_version(port_name, version_string):
             return None  # We haven't received a reasonable version number response.
 
         ebb_version_string = ebb_version_string.strip()  # Stripped copy, for number comparisons
-        if parse(ebb_version_string) >= parse(version_string):
-            return True
+        try:
+            if parse(ebb_version_string) >= parse(version_string):
+                return True
+        except InvalidVersion:
+            return None  # The text after "Firmware Version" is not a version number.
         return False
     return None
 
